@@ -270,8 +270,12 @@ func ReadMesh(in io.Reader) ([]ObjMesh, []string, error) {
 			}
 
 			if !workingGeom.empty() {
+				if trisSenseLastMat > 0 && len(workingGeom.meshMats) > 0 {
+					workingGeom.meshMats[len(workingGeom.meshMats)-1].PrimitiveCount = trisSenseLastMat
+				}
 				geoms = append(geoms, workingGeom.toMesh())
 				workingGeom = newObjMeshReading()
+				trisSenseLastMat = 0
 			}
 			workingGeom.name = groupName
 
